@@ -52,7 +52,7 @@ def opt_lines(text: str) -> T.Dict[str, str]:
 class Check:
     id = 'C09'
     level = 'fault_enumeration'
-    quick_n = 48
+    quick_n = 64
     thorough_budget_s = 1200
     scenario_wall_limit = 1500.0
     shrink_runs = 60
@@ -88,8 +88,9 @@ class Check:
         frng = prng.derive(prng.base_seed(), 'C09', tier, 'family', fam)
         spec = P.gen_spec(frng)
         spec['backend'] = 'ninja' if frng.random() < 0.3 else 'none'
-        cmd_kind = ['setup', 'reconfigure', 'wipe', 'configure', 'configure-U', 'reconfigure-edit'][fam % 6] if tier == 'quick' \
-            else frng.choice(['setup', 'reconfigure', 'reconfigure', 'wipe', 'wipe', 'configure', 'configure', 'configure-U', 'reconfigure-edit'])
+        cmd_kind = ['setup', 'reconfigure', 'wipe', 'configure', 'configure-U', 'reconfigure-edit', 'setup-again', 'clearcache'][fam % 8] if tier == 'quick' \
+            else frng.choice(['setup', 'reconfigure', 'reconfigure', 'wipe', 'wipe', 'configure', 'configure', 'configure-U', 'reconfigure-edit',
+                              'setup-again', 'clearcache'])
         hist: T.List[T.Dict[str, T.Any]] = []
         work = copy.deepcopy(spec)
         if cmd_kind != 'setup':
@@ -129,6 +130,10 @@ class Check:
             cmd = {'op': 'reconfigure', 'D': P.draw_assignments(frng, work, frng.randint(0, 2))}
         elif cmd_kind == 'wipe':
             cmd = {'op': 'wipe'}
+        elif cmd_kind == 'setup-again':
+            cmd = {'op': 'setup-again', 'D': P.draw_assignments(frng, work, frng.randint(1, 2)) or {'s': 'again'}}
+        elif cmd_kind == 'clearcache':
+            cmd = frng.choice([{'op': 'configure', 'D': {}, 'clearcache': True}, {'op': 'reconfigure', 'D': P.draw_assignments(frng, work, 1), 'clearcache': True}])
         elif cmd_kind == 'configure-U' and work.get('sub') is not None:
             key = f'{P.SUB}:' + frng.choice(P.SUB_OVERRIDABLE)
             hist.append({'op': 'configure', 'D': {key: frng.choice(P.BUILTINS[key.split(":")[1]])}})
@@ -147,11 +152,14 @@ class Check:
         if op == 'setup':
             return ['setup', f"--backend={spec.get('backend', 'none')}", bd, sd] + d
         if op == 'reconfigure':
-            return ['setup', '--reconfigure', bd, sd] + d
+            return ['setup', '--reconfigure', bd, sd] + d + (['--clearcache'] if step.get('clearcache') else [])
+        if op == 'setup-again':
+            # `meson setup` with -D on an already configured directory behaves like `meson configure`
+            return ['setup', bd, sd] + d
         if op == 'wipe':
             return ['setup', '--wipe', bd, sd]
         if op == 'configure':
-            return ['configure', bd] + d + [f'-U{k}' for k in step.get('U') or []]
+            return ['configure', bd] + d + [f'-U{k}' for k in step.get('U') or []] + (['--clearcache'] if step.get('clearcache') else [])
         raise AssertionError(op)
 
     def observe(self, root: str, bd: str, sd: str, tag: str) -> T.Tuple[int, T.Dict[str, str], str]:
